@@ -260,15 +260,23 @@ def loop_blocks(fn, head, succ):
 
 
 def assigned_locals(fn, blocks):
+    """locals that are (re)assigned as a whole or in a field inside the given blocks (stores through a
+    dereference do not assign the pointer local itself)"""
     out = set()
     for bb in blocks:
         for s in fn.blocks[bb]:
-            m = re.match(r'\(*\**(_\d+)', s)
-            if m and ' = ' in s:
-                lhs = s.split(' = ')[0]
-                b = re.search(r'_\d+', lhs).group(0)
-                if not lhs.strip().startswith('(*'):
-                    out.add(b)
+            k = s.find(' = ')
+            if k < 0 or s.startswith('assert(') or s.startswith('switchInt('):
+                continue
+            lhs = s[:k].strip()
+            if lhs.startswith('discriminant('):
+                lhs = lhs[len('discriminant('):-1]
+            try:
+                b, path = parse_place(lhs)
+            except EngineError:
+                continue
+            if '*' not in path:
+                out.add(b)
     return out
 
 
@@ -283,6 +291,7 @@ class FnSummary:
 
 
 def summarise(ex, fn, args, st, watch_mem=(), obj_key=None):
+    mem0 = {k: st.mem.get(k) for k in watch_mem}      # symbolic entry state of the watched memory
     heads, succ = loop_heads(fn)
     if len(heads) > 1:
         raise EngineError('%s has %d loops: outside the extraction' % (fn.name[-40:], len(heads)))
@@ -318,7 +327,9 @@ def summarise(ex, fn, args, st, watch_mem=(), obj_key=None):
             init[l] = v
     st1 = State()
     for k in watch_mem:
-        st1.mem[k] = tmpl.mem.get(k)
+        # the watched memory is loop-carried state: an iteration starts from the same symbolic variables as the
+        # function entry; the composition instantiates them with the memory the previous segment left behind
+        st1.mem[k] = mem0.get(k)
     # memory the iteration may touch: copy the non-frame memory of the template path
     for o in outs:
         if o.kind == 'stop':
